@@ -778,8 +778,31 @@ def _nan_to_num(x, *a, **k):
     return elementwise(transc.nan_to_num, x)
 
 
+def _uf(name, arity):
+    import z3
+    return z3.Function(name, *([z3.RealSort()] * (arity + 1)))
+
+
+def _arcsin(x, *a, **k):
+    f = _uf('ASIN', 1)
+    return elementwise(lambda v: core.SNum(f(core._real(v))), x)
+
+
+def _arctan2(y, x, *a, **k):
+    f = _uf('ATAN2', 2)
+    return elementwise(lambda u, v: core.SNum(f(core._real(u), core._real(v))), y, x)
+
+
+def _degrees(x, *a, **k):
+    f = _uf('DEGREES', 1)
+    return elementwise(lambda v: core.SNum(f(core._real(v))), x)
+
+
 def _isnan(x, *a, **k):
     return elementwise(lambda v: False, x)
+
+
+ASSUME_IRFFT_INTENDED_LENGTH = False
 
 
 class Spectrum:
@@ -874,6 +897,8 @@ class _FFT:
             raise Inconclusive('irfft of an fft spectrum / other axis')
         m = spec.n // 2 + 1
         n_out = 2 * (m - 1) if n is None else int(n)
+        if n is None and ASSUME_IRFFT_INTENDED_LENGTH:
+            n_out = spec.n   # 'K-corrected' environment used next to a listed finding: the inverse has the forward length
         r = spec.autocorrelation(n_out)
         if r is None:
             return self._unconstrained(spec, n_out)
@@ -910,6 +935,7 @@ _INTERCEPTS = dict(
     nonzero=_nonzero, argwhere=_argwhere, min=_amin, max=_amax, amin=_amin, amax=_amax,
     any=_any, all=_all, std=_std, digitize=_digitize, histogram=_histogram,
     bincount=_bincount, unique=_unique, isnan=_isnan, log=_log, exp=_exp, nan_to_num=_nan_to_num,
+    arcsin=_arcsin, arctan2=_arctan2, degrees=_degrees,
 )
 # creation functions: object arrays whenever a harness is active
 _CREATION = dict(zeros=_zeros, ones=_ones, empty=_empty, full=_full,
